@@ -78,7 +78,8 @@ func init() {
 		},
 		Rule:   "adversarial and honest cases with many timeouts; every VIEW_CHANGE a correct node sends after having been prepared and every NEW_VIEW a correct leader sends is judged against its own input history; non-trivial = a locked VIEW_CHANGE or a lock-re-proposing NEW_VIEW was judged",
 		Floors: map[string]int{"C09 locked view changes judged": 2000, "C09 new views judged": 1000, "C09 new views re-proposing a lock": 200},
-		Judged: []string{"C09 locked view changes judged", "C09 new views judged", "C09 new views re-proposing a lock"}})
+		Judged: []string{"C09 locked view changes judged", "C09 new views judged", "C09 new views re-proposing a lock"},
+		Extra:  farViews("C09", 9)})
 	reg(&sim.SimCheck{Prop: "C10", Workload: "c10", Profile: withOpts(advProfile(merge(noBare, map[string]int{"equivocate": 20, "support": 25, "mutate": 20}), 500, 2), func(p *sim.Profile) { p.CommErrors, p.CommitFailures = true, true }),
 		QuickCases: 5000, ThoroughCases: 100000,
 		NonTrivial: func(r *sim.Result) bool { return r.Forky && r.Stats["C10 commits judged"] > 0 },
@@ -151,7 +152,13 @@ func init() {
 		Floors:     map[string]int{"C13 rounds": 10000, "C13 samples": 500000, "commits": 3000},
 		Judged:     []string{"C13 rounds", "C13 samples", "commits"},
 		Extra: func(run *harness.Run) ([]harness.Finding, map[string]interface{}, []string) {
-			return rtPart(run, "stress", 40, 1500, map[string]int{"C13 commit callbacks judged": 1000, "C13 round callbacks judged": 1000, "C13 state samples": 50000})
+			fs, ev, inc := rtPart(run, "stress", 40, 1500, map[string]int{"C13 commit callbacks judged": 1000, "C13 round callbacks judged": 1000, "C13 state samples": 50000})
+			// views that do not fit 63 bits, the last view 2^64-1 and the election timeout fired in it
+			fs2, ev2, inc2 := farViews("C13", 13)(run)
+			for k, v := range ev2 {
+				ev[k] = v
+			}
+			return append(fs, fs2...), ev, append(inc, inc2...)
 		}})
 	reg(&sim.SimCheck{Prop: "C17", Workload: "c17", Profile: func(th bool) *sim.Profile {
 		p := advProfile(merge(noBare, map[string]int{"support": 25, "crossInstance": 12, "mutate": 15, "corruptNested": 4}), 600, 3)(th)
@@ -176,7 +183,7 @@ func init() {
 		NonTrivial: func(r *sim.Result) bool { return r.Stats["C18 view change destinations judged"] > 3 },
 		Rule:       "(a) the real leader function tabulated next to committee[view mod n] for n=4..64 and views 0..4n, 2^k, 2^k+-1, +-70 around 2^31, 2^32, 2^63, 2^64-1 and random 64-bit views, plus 'each member leads once in n consecutive views'; (b) behaviour in sim executions: every VIEW_CHANGE a correct node sends must go to the member at position view mod n and the member at that position must collect instead of sending, NEW_VIEWs only from that member; non-trivial case = more than 3 VIEW_CHANGE destinations judged",
 		Floors:     map[string]int{"C18 view change destinations judged": 20000},
-		Judged:     []string{"C18 view change destinations judged", "adv hugeView"},
+		Judged:     []string{"C18 view change destinations judged", "C18 role decisions judged for a view ahead of the receiver", "C18 proposer ids judged", "adv hugeView"},
 		Extra: func(run *harness.Run) ([]harness.Finding, map[string]interface{}, []string) {
 			fs, evals, distinct, samples := unit.CheckC18Table(run)
 			ev := map[string]interface{}{"leader_table_evaluations": evals, "leader_table_distinct_(n,view-class,position)": len(distinct), "leader_table_samples": samples}
@@ -196,12 +203,41 @@ func init() {
 			ev["huge_view_elections_of_the_node_at_its_own_position"] = st.Elected
 			ev["huge_view_timeout_vote_destinations_judged"] = st.Destinations
 			ev["huge_view_samples"] = st.Samples
-			var inc []string
+			fs3, ev3, inc := farViews("C18", 18)(run)
+			fs = append(fs, fs3...)
+			for k, v := range ev3 {
+				ev[k] = v
+			}
 			if len(viol) == 0 && (st.Adopted == 0 || st.Elected == 0 || st.WrongSenderIgnored == 0 || st.Destinations == 0) {
 				inc = append(inc, "huge-view script judged nothing in one of its classes")
 			}
 			return fs, ev, inc
 		}})
+}
+
+// farViews runs the far-view script (sim/farviews.go) and reports the violations of one property.
+func farViews(prop string, seedSalt int64) func(run *harness.Run) ([]harness.Finding, map[string]interface{}, []string) {
+	return func(run *harness.Run) ([]harness.Finding, map[string]interface{}, []string) {
+		viol, st, trace, done := sim.ScriptFarViews(run.Seed*104729+seedSalt, run.Pick(160, 4000), 120*time.Second)
+		var fs []harness.Finding
+		for i, v := range sim.FilterViolations(prop, viol) {
+			if i >= 3 {
+				break
+			}
+			path := harness.ReplayPath(prop, fmt.Sprintf("far-view-%d", i+1))
+			harness.WriteJSON(path, map[string]interface{}{"property": prop, "rule": v.Rule, "detail": v.Detail, "trace": trace})
+			fs = append(fs, harness.Finding{Prop: prop, Rule: v.Rule, Detail: v.Detail, Replay: path})
+		}
+		ev := map[string]interface{}{"far_view_script": st}
+		var inc []string
+		if !done && len(fs) == 0 {
+			inc = append(inc, "far-view script stopped early: "+st.HandlerStillRunningFor)
+		}
+		if len(fs) == 0 && (st.Elections == 0 || st.StraddlingLockChoices == 0 || st.Adoptions == 0 || st.LockedVotesJudged == 0 || st.TimeoutsAtTheLastView == 0) {
+			inc = append(inc, "far-view script judged nothing in one of its classes")
+		}
+		return fs, ev, inc
+	}
 }
 
 // scriptedBare reproduces the recorded bare-PREPREPARE finding (C07) and its fork (C01) deterministically.
